@@ -216,7 +216,7 @@ fn wavelet(v: &Vec<u64>) -> CaseResult {
 }
 
 pub fn register(r: &mut Run) {
-    r.subcheck("elias_fano", r.cases(20_000, 1_000_000), strictly_increasing_seq, elias_fano);
-    r.subcheck("rank_select", r.cases(8_000, 400_000), rs_case, rank_select);
-    r.subcheck("wavelet", r.cases(6_000, 300_000), wavelet_seq, wavelet);
+    r.subcheck("elias_fano", r.cases(20_000, 2_000_000), strictly_increasing_seq, elias_fano);
+    r.subcheck("rank_select", r.cases(8_000, 600_000), rs_case, rank_select);
+    r.subcheck("wavelet", r.cases(6_000, 500_000), wavelet_seq, wavelet);
 }
